@@ -19,7 +19,8 @@ Definition dec_str (b : str) : option (str * str) :=
   match b with
   | [] => None
   | n :: r => let k := N.to_nat n in
-              if Nat.leb k (length r) then Some (firstn k r, skipn k r) else None
+              let f := firstn k r in      (* only the field itself is measured: linear decoding *)
+              if Nat.eqb (length f) k then Some (f, skipn k r) else None
   end.
 
 Definition dec_meta (b : str) : option (meta * str) :=
